@@ -851,6 +851,17 @@ class Engine:
         # spec special forms
         if isinstance(node.func, ast.Name) and node.func.id in ('forall', 'exists') and not env.has(node.func.id):
             return self.quantifier(node, env)
+        if isinstance(node.func, ast.Name) and node.func.id == 'setof' and not env.has('setof'):
+            # setof(lambda x: cond, T): the set {x: T | cond}
+            lam, ty = node.args[0], self.eval(node.args[1], env)
+            c = z3.FreshConst(ty.sort(), lam.args.args[0].arg)
+            sub = Env(env, {lam.args.args[0].arg: wrap(ty, c)})
+            self.spec += 1
+            try:
+                body = self._b(self.truth(self.eval(lam.body, sub)))
+            finally:
+                self.spec -= 1
+            return Box(TSet(ty), z3.Lambda([c], body))
         if isinstance(node.func, ast.Name) and node.func.id == 'old' and not env.has('old'):
             try:
                 oe = env.lookup('__old_env__')
@@ -858,6 +869,16 @@ class Engine:
                 oe = self.cur_old_env      # inside a spec helper lambda: the old state of the contract being evaluated
             return self.eval(node.args[0], oe)
         f = self.eval(node.func, env)
+        ghost_call = isinstance(node.func, ast.Name) and node.func.id in ('prove', 'use_lemma') and not env.has(node.func.id)
+        if ghost_call:
+            self.spec += 1       # the arguments of ghost calls are specification expressions (total, no exception paths)
+        try:
+            return self._eval_call_args(node, env, f, ghost_call)
+        finally:
+            if ghost_call:
+                self.spec -= 1
+
+    def _eval_call_args(self, node, env, f, ghost_call):
         args = []
         for a in node.args:
             if isinstance(a, ast.Starred):
@@ -867,9 +888,22 @@ class Engine:
         kwargs = {}
         for k in node.keywords:
             if k.arg is None:
-                raise EngineError('**kwargs call')
+                v = self.eval(k.value, env)
+                if isinstance(v, Box) and v.cd is not None:
+                    kwargs.update({kk: vv for kk, vv in v.cd.items()})
+                elif isinstance(v, dict):
+                    kwargs.update(v)
+                else:
+                    kwargs['**'] = v          # a symbolic mapping: only a **kwargs parameter can take it
+                continue
             kwargs[k.arg] = self.eval(k.value, env)
         self.line = getattr(node, 'lineno', self.line)
+        if ghost_call:
+            sp, self.spec = self.spec, 0
+            try:
+                return self.call(f, args, kwargs)
+            finally:
+                self.spec = sp
         return self.call(f, args, kwargs)
 
     def quantifier(self, node, env):
@@ -926,6 +960,8 @@ class Engine:
             return self.instantiate(f, args, kwargs)
         if isinstance(f, ExcClass):
             return ExcValue(f.name, tuple(args))
+        if isinstance(f, Obj) and '__call__' in f.attrs:
+            return self.call(f.attrs['__call__'], args, kwargs)
         if isinstance(f, Ty):
             raise EngineError('type used as function')
         raise EngineError('call of %r' % (f,))
@@ -953,6 +989,9 @@ class Engine:
             vals[a.vararg.arg] = tuple(args[len(params):])
         kwonly = [p.arg for p in a.kwonlyargs]
         extra = {}
+        star = kwargs.pop('**', None) if '**' in kwargs else None
+        if star is not None and not a.kwarg:
+            raise EngineError('symbolic ** mapping passed to a function without **kwargs')
         for k, v in kwargs.items():
             if k in params or k in kwonly:
                 if k in vals:
@@ -976,13 +1015,20 @@ class Engine:
                 else:
                     raise EngineError('missing kw argument %s' % p)
         if a.kwarg:
-            from .builtins import new_dict
-            vals[a.kwarg.arg] = extra
+            if star is not None:
+                if extra:
+                    raise EngineError('symbolic ** mapping mixed with explicit keywords')
+                vals[a.kwarg.arg] = star
+            else:
+                vals[a.kwarg.arg] = extra
         return vals
 
     def call_closure(self, clo, args, kwargs):
         c = self.contracts.get(clo.qualname)
         if c is not None and not self.spec and self.cur_fn != clo.qualname + '!inline':
+            g = getattr(self, 'ghost_before_call', {}).get(clo.qualname.split('.')[-1])
+            if g and getattr(self, 'caller_env', None) is not None:
+                self.exec_src(g, self.caller_env)
             return self.call_contract(c, clo, args, kwargs)
         vals = self.bind_args(clo, args, kwargs)
         env = Env(clo.env, vals)
@@ -1058,7 +1104,7 @@ class Engine:
             return tuple(self.snapshot(x) for x in v)
         return v
 
-    def havoc_path(self, src, env):
+    def havoc_path(self, src, env, types=None):
         """havoc the content of the container (or the attribute) denoted by the expression src."""
         node = ast.parse(src.strip(), mode='eval').body
         self.spec += 1
@@ -1070,7 +1116,7 @@ class Engine:
                     if isinstance(cur, Box):
                         cur.e = self.fresh(cur.ty, 'hv_' + node.attr)
                     else:
-                        base.attrs[node.attr] = self.havoc_value(cur, None, node.attr)
+                        base.attrs[node.attr] = self.havoc_value(cur, (types or {}).get(node.attr), node.attr)
                     return
             v = self.eval(node, env)
         finally:
@@ -1213,7 +1259,19 @@ class Engine:
     def exec_If(self, node, env):
         t = self.truth(self.eval(node.test, env))
         tv = t if isinstance(t, bool) else self.branch(t)
+        self.refine_none(node.test, tv, env)
         self.exec_block(node.body if tv else node.orelse, env)
+
+    def refine_none(self, test, tv, env):
+        """after `x is None` / `x is not None` has been decided on this path, an Opt-typed x that is known not to be None
+        is re-bound to its payload (same python value, sharper static type)."""
+        if isinstance(test, ast.Compare) and len(test.ops) == 1 and isinstance(test.left, ast.Name) \
+                and isinstance(test.comparators[0], ast.Constant) and test.comparators[0].value is None:
+            is_none = tv if isinstance(test.ops[0], ast.Is) else (not tv if isinstance(test.ops[0], ast.IsNot) else None)
+            name = test.left.id
+            v = env.vars.get(name)
+            if is_none is False and isinstance(v, SV) and isinstance(v.ty, TOpt):
+                env.vars[name] = wrap(v.ty.t, v.ty.get(v.e))
 
     def exec_Assign(self, node, env):
         v = self.eval(node.value, env)
@@ -1417,7 +1475,7 @@ class Engine:
                 except EngineError:
                     del env.vars[name]
         for m in spec.modifies:
-            self.havoc_path(m, env)
+            self.havoc_path(m, env, spec.locals)
         if which == 'iter':
             if is_for:
                 k = self.fresh(TInt, 'k' + tag)
